@@ -104,6 +104,17 @@ Definition mon_promotion_ok (pre post : State) : bool :=
       | None => false end
     else true).
 
+(** C07: in an operation that only releases collateral (Terminate, Cancel, the end blocker), what a provider receives is
+    the collateral of its completed shards that disappear, less exactly the reduction of its recorded debt *)
+Definition released_to (pre post : State) (sp : string) : Z :=
+  sumz (filter (fun kv => (sh_status kv.2 =? ShardCompleted) && String.eqb (sh_sp kv.2) sp &&
+                          negb (bool_decide (is_Some (shards post !! kv.1)))) (map_to_list (shards pre)))
+       (fun kv => sh_pledge kv.2).
+Definition mon_release_exact (pre post : State) : bool :=
+  all_s (pledges pre) (fun sp _ =>
+    balance post sp - balance pre sp =?
+    released_to pre post sp - (default 0 (debts pre !! sp) - default 0 (debts post !! sp))).
+
 Definition op_monitors (cx : Ctx) (pre : State) (op : Op) (accepted : bool) (post : State) : list (string * bool) :=
   (* frames that hold for every operation, accepted or not *)
   [ ("frame.models", touches_models op || models_same pre post);
@@ -115,6 +126,9 @@ Definition op_monitors (cx : Ctx) (pre : State) (op : Op) (accepted : bool) (pos
                                             (filter (fun kv => negb (str_prefix "node.Fault" kv.1 || String.eqb kv.1 "node.FishingReward")) (enc_state post))))
                      | _ => faults_same pre post end);
     ("super.promotion_ok", mon_promotion_ok pre post);
+    ("coll.release_exact", match op with
+                           | OTerminate _ _ _ _ _ | OCancel _ _ _ | OEndBlock _ => negb accepted || mon_release_exact pre post
+                           | _ => true end);
     ("frame.supply", match op with OBeginBlock => supply pre <=? supply post | _ => supply pre =? supply post end);
     ("rollback.clean", mon_rollback_clean pre post);
     ("rollback.refund_exact", match op with OCancel _ _ _ | OEndBlock _ => mon_rollback_refund pre post | _ => true end);
